@@ -20,7 +20,7 @@ type, which holds for every `int` radix: `radix_fits` —; signed AND unsigned s
 `scaled_stays_inside`, `scaled_contract_unsigned` (= `FullScaledContractUnsigned`, formerly open).
 
 Capacity of `scaled_integer`: `scaled_capacity_suffices_partial` proves `FullScaledCapacity` for non-negative
-exponents (see its comment for the side condition at radix ten); negative exponents are covered by the
+exponents and every radix (see its comment for the side condition at radix ten); negative exponents are covered by the
 correspondence sweep (`fix` lines at capacity: every value of 8-bit reps × exponents −70…70) and a model search only.
 No open finding is left: `most_negative_integer` (`most_negative_unrepaired_refuted`) and `input_radix_above_ten`
 (`descale_radix_above_ten_refuted`, `radix_above_ten_witnesses`) are repaired; their theorems now speak of the
@@ -289,24 +289,25 @@ theorem scaled_contract_unsigned : FullScaledContractUnsigned := by
 
 example : (sigTy u64).signed = false ∧ 64 ≤ u64.bits ∧ u64.InRange 18446744073709551615 := by decide
 
-/-- full statement: the capacity of `scaled_integer` is enough for every value, exponent and radix 2…10 -/
+/-- full statement: the capacity of `scaled_integer` is enough for every value, exponent and radix -/
 def FullScaledCapacity : Prop :=
-  ∀ (T : IntTy) (e : Int) (R : Nat) (rep : Int), 8 ≤ T.bits → e.natAbs < 2 ^ 31 → 2 ≤ R → R ≤ 10 → T.InRange rep →
+  ∀ (T : IntTy) (e : Int) (R : Nat) (rep : Int), 8 ≤ T.bits → e.natAbs < 2 ^ 31 → 2 ≤ R → R < 2 ^ 31 → T.InRange rep →
     ∃ t, scaledStaticText T e R rep = .ok t
 
-/-- proved part of `FullScaledCapacity`: NON-NEGATIVE exponents — every rep type, value, exponent `e ≥ 0`, radix
-2…9, and radix ten for digit counts with `1000·digits mod 3321 ≥ 320` (7, 8, 15, 16, 31, 32, 63, 64, 127, 128: every
+/-- proved part of `FullScaledCapacity`: NON-NEGATIVE exponents — every rep type, value, exponent `e ≥ 0`, EVERY radix
+`≥ 2` other than ten (`10·R ≤ max` of the significand type: every `int` radix), and radix ten for digit counts with `1000·digits mod 3321 ≥ 320` (7, 8, 15, 16, 31, 32, 63, 64, 127, 128: every
 built-in rep).  `to_chars_static` / `to_string` / `operator<<` succeed for every value (the most negative one included).  (For radix ten `num_digits_to_binary` can be one bit short — `toBinary_spec` — so that for other
 digit counts the fixed layout of the largest values may not fit; the scientific layout then does, which is not
 proved.)  Negative exponents: not proved; a search over 973 620 (type, exponent −300…300, radix, value) cases of
 the model and the per-run sweep at capacity found no failure. -/
 theorem scaled_capacity_suffices_partial (T : IntTy) (e : Int) (R : Nat) (rep : Int)
-    (he : 0 ≤ e) (hR2 : 2 ≤ R) (hR : R ≤ 10)
+    (he : 0 ≤ e) (hR2 : 2 ≤ R) (hRS : 10 * (R : Int) ≤ (sigTy T).max)
     (hside : R = 10 → 320 ≤ T.digits * 1000 % 3321) (hbits : 1 ≤ T.bits) (hr : T.InRange rep) :
     ∃ t, scaledStaticText T e R rep = .ok t :=
-  scaledStaticText_nonneg_exp T e R rep he hR2 hR hside hbits hr
+  scaledStaticText_nonneg_exp T e R rep he hR2 hRS hside hbits hr
 
-example : (0 : Int) ≤ 70 ∧ ((10 : Nat) = 10 → 320 ≤ i64.digits * 1000 % 3321) ∧ i64.InRange (-9223372036854775808) := by
+example : (0 : Int) ≤ 70 ∧ ((10 : Nat) = 10 → 320 ≤ i64.digits * 1000 % 3321) ∧ i64.InRange (-9223372036854775808) ∧
+    10 * ((36 : Nat) : Int) ≤ (sigTy i64).max := by
   decide
 
 end Cnl.C13
